@@ -126,7 +126,7 @@ Definition print_fillvalue (v : fillvalue) : text :=
   match v with
   | FVNone => ts "<nil>"
   | FVInt i => dec i
-  | FVFloat f => print_float_v f
+  | FVFloat f => print_number orc f    (* (&NumberLiteral{Val: v}).String() *)
   end.
 
 (* Field.String, Fields.String *)
@@ -232,10 +232,10 @@ Definition print_stmt (s : stmt) : text :=
       ++ (match sh with Some x => ts " SHARD DURATION " ++ format_duration x | None => [] end)
       ++ (if df then ts " DEFAULT" else [])
       ++ (match fu with
-          | Some x => if x =? 0 then [] else ts " FUTURE LIMIT " ++ format_duration x
+          | Some x => ts " FUTURE LIMIT " ++ format_duration x
           | None => [] end)
       ++ (match pa with
-          | Some x => if x =? 0 then [] else ts " PAST LIMIT " ++ format_duration x
+          | Some x => ts " PAST LIMIT " ++ format_duration x
           | None => [] end)
   | CreateContinuousQuery n db src ev fo =>
       ts "CREATE CONTINUOUS QUERY " ++ qi [n] ++ ts " ON " ++ qi [db] ++ ts " "
@@ -249,14 +249,14 @@ Definition print_stmt (s : stmt) : text :=
       ts "CREATE DATABASE " ++ qi [n]
       ++ (if rc then
             ts " WITH"
-            ++ (match rd with Some x => ts " DURATION " ++ go_duration_string x | None => [] end)
+            ++ (match rd with Some x => ts " DURATION " ++ format_duration x | None => [] end)
             ++ (match rr with Some x => ts " REPLICATION " ++ dec x | None => [] end)
-            ++ (if 0 <? rs then ts " SHARD DURATION " ++ go_duration_string rs else [])
+            ++ (if 0 <? rs then ts " SHARD DURATION " ++ format_duration rs else [])
             ++ (match fu with
-                | Some x => if 0 <? x then ts " FUTURE LIMIT " ++ format_duration x else []
+                | Some x => ts " FUTURE LIMIT " ++ format_duration x
                 | None => [] end)
             ++ (match pa with
-                | Some x => if 0 <? x then ts " PAST LIMIT " ++ format_duration x else []
+                | Some x => ts " PAST LIMIT " ++ format_duration x
                 | None => [] end)
             ++ (if is_empty rn then [] else ts " NAME " ++ qi [rn])
           else [])
@@ -308,8 +308,8 @@ Definition print_stmt (s : stmt) : text :=
   | ShowMeasurements db rp wdb wrp src c so li of_ =>
       ts "SHOW MEASUREMENTS"
       ++ (if negb (is_empty db) || wdb then
-            ts " ON " ++ (if wdb then ts "*" else db)          (* no QuoteIdent *)
-            ++ (if wrp then ts ".*" else if negb (is_empty rp) then ts "." ++ rp else [])
+            ts " ON " ++ (if wdb then ts "*" else qi [db])
+            ++ (if wrp then ts ".*" else if negb (is_empty rp) then ts "." ++ qi [rp] else [])
           else [])
       ++ (match src with
           | Some s' =>
@@ -336,8 +336,9 @@ Definition print_stmt (s : stmt) : text :=
   | ShowTagKeyCardinality db ex ss c ds li of_ =>
       ts "SHOW TAG KEY " ++ (if ex then ts "EXACT " else []) ++ ts "CARDINALITY"
       ++ cl_on db ++ cl_from ss ++ card_tail c ds li of_
-  | ShowTagKeys db ss _ _ c so li of_ sl sof =>              (* TagKeyOp / TagKeyExpr are not printed *)
-      ts "SHOW TAG KEYS" ++ cl_on db ++ cl_from ss ++ cl_where c ++ cl_order_by so
+  | ShowTagKeys db ss op ke c so li of_ sl sof =>
+      ts "SHOW TAG KEYS" ++ cl_on db ++ cl_from ss
+      ++ (match ke with Some _ => cl_with_key op ke | None => [] end) ++ cl_where c ++ cl_order_by so
       ++ cl_limit li ++ cl_offset of_ ++ cl_slimit sl ++ cl_soffset sof
   | ShowTagValues db ss op ke c so li of_ =>
       ts "SHOW TAG VALUES" ++ cl_on db ++ cl_from ss ++ cl_with_key op ke
